@@ -153,7 +153,9 @@ func svRun(in []byte) (interface{}, error) {
 				case hung:
 					bad = fmt.Sprintf("GetSlotState did not return within %v", budget)
 				case c.First < 0:
-					if o.err == nil {
+					if o.err == nil && o.node == nil {
+						bad = "no node ever reports master, contract says error; got neither an error nor a node (nil, nil)"
+					} else if o.err == nil {
 						bad = fmt.Sprintf("no node ever reports master, contract says error; got source %q", o.node.Source)
 					} else {
 						pmu.Lock()
@@ -167,6 +169,10 @@ func svRun(in []byte) (interface{}, error) {
 				default:
 					if o.err != nil {
 						bad = fmt.Sprintf("a node reports master in round %d but GetSlotState failed: %v", c.First, o.err)
+						break
+					}
+					if o.node == nil {
+						bad = fmt.Sprintf("a node reports master in round %d but GetSlotState returned no node and no error", c.First)
 						break
 					}
 					si := idxOf(o.node.Source)
